@@ -43,8 +43,9 @@ func CheckMnemonic(mnemonic string, lg Language) error {
 	// get checksum
 	csBig := new(big.Int).And(entBig, big.NewInt(shift-1))
 
-	// get real entropy
-	entBytes := entBig.Quo(entBig, big.NewInt(shift)).Bytes()
+	// get real entropy: exactly ENT/8 bytes, leading zero bytes included
+	entBytes := make([]byte, wordCount/3*4)
+	entBig.Quo(entBig, big.NewInt(shift)).FillBytes(entBytes)
 	// get checksum from real entropy
 	hash := sha256.New()
 	_, _ = hash.Write(entBytes)
